@@ -95,6 +95,10 @@ func runC08(sum *hutil.Summary, tmp string, reps int, seed uint64) {
 		for _, c := range c08HandoffMatrix() {
 			jobs = append(jobs, job{c, 2 * rep, len(jobs)})
 		}
+		// a pipe worker still waiting for its first writer while the FIFO's directory entry changes (c08_openwait.go)
+		for _, c := range c08OpenWaitMatrix() {
+			jobs = append(jobs, job{c, rep, len(jobs)})
+		}
 	}
 	for rep := 0; rep < reps; rep++ { // (at the end: a variant whose daemon stayed up the first time is not run again)
 		for _, c := range c08HandoffMatrix() {
@@ -128,13 +132,13 @@ func runC08(sum *hutil.Summary, tmp string, reps int, seed uint64) {
 			defer wg.Done()
 			defer func() { <-sem }()
 			mu.Lock()
-			skip := stillRunning[j.c]
+			skip := stillRunning[stillKey(j.c)]
 			mu.Unlock()
 			if skip {
 				return
 			}
 			res := runC08Scenario(bin, filepath.Join(tmp, fmt.Sprintf("c08-%d", j.idx)), j.c.cause, j.c.variant, j.rep)
-			if res.HarnessErr != "" && isHandoffVariant(j.c.variant) {
+			if res.HarnessErr != "" && (isHandoffVariant(j.c.variant) || isOpenWaitVariant(j.c.variant)) {
 				// the harness' own set-up did not get there (loaded machine): says nothing about the code, once more
 				time.Sleep(200 * time.Millisecond)
 				res = runC08Scenario(bin, filepath.Join(tmp, fmt.Sprintf("c08-%d-again", j.idx)), j.c.cause, j.c.variant, j.rep)
@@ -142,7 +146,7 @@ func runC08(sum *hutil.Summary, tmp string, reps int, seed uint64) {
 			mu.Lock()
 			results[j.idx], ran[j.idx] = res, true
 			if res.FailKey != "" && !res.Returned {
-				stillRunning[j.c] = true
+				stillRunning[stillKey(j.c)] = true
 			}
 			mu.Unlock()
 		}(j)
@@ -163,6 +167,16 @@ func runC08(sum *hutil.Summary, tmp string, reps int, seed uint64) {
 	}
 }
 
+// stillKey: the class of scenarios that is not run again once a daemon of it stayed up (each costs the whole bound): the
+// scenario itself; for the open-wait family the disturbance of the waiting FIFO's directory entry, whatever the stop cause.
+func stillKey(c c08Case) c08Case {
+	if isOpenWaitVariant(c.variant) {
+		parts := strings.Split(c.variant, "/")
+		return c08Case{"*", "open-wait/*/" + strings.TrimSuffix(parts[len(parts)-1], "-debug")}
+	}
+	return c
+}
+
 func sshdLine(i int) string {
 	return fmt.Sprintf("%d Accepted password for alice from 192.0.2.7 port 50022 ssh2\n", 4000+i)
 }
@@ -174,6 +188,9 @@ func runC08Scenario(bin, dir, cause, variant string, rep int) (r result) {
 	}
 	if isHTTPVariant(variant) {
 		return runC08HTTP(bin, dir, cause, variant, rep)
+	}
+	if isOpenWaitVariant(variant) {
+		return runC08OpenWait(bin, dir, cause, variant, rep)
 	}
 	r = result{Prop: "C08", Scenario: cause, Variant: variant, Rep: rep}
 	if err := os.MkdirAll(dir, 0o755); err != nil {
